@@ -325,31 +325,67 @@ func Neq(a, b *Term) *Term { return Not(Eq(a, b)) }
 
 // ---------- Int arithmetic ----------
 
-func Add(as ...*Term) *Term {
-	sum := new(big.Int)
+// Linear normal form for Int sums: sum of coef*atom + const, atoms ordered by
+// their printed form.  Add, Sub and NegI always return this form, so that
+// syntactically different spellings of one linear expression coincide.
+type linAtom struct {
+	coef *big.Int
+	t    *Term
+}
+
+func linAccum(t *Term, k *big.Int, m map[string]*linAtom, c *big.Int) {
+	switch {
+	case t.isInt():
+		c.Add(c, new(big.Int).Mul(k, t.Int))
+	case t.Op == "+" && t.Sort == SInt && !t.IsLit:
+		for _, a := range t.Args {
+			linAccum(a, k, m, c)
+		}
+	case t.Op == "-" && t.Sort == SInt && !t.IsLit && len(t.Args) == 1:
+		linAccum(t.Args[0], new(big.Int).Neg(k), m, c)
+	case t.Op == "-" && t.Sort == SInt && !t.IsLit && len(t.Args) >= 2:
+		linAccum(t.Args[0], k, m, c)
+		nk := new(big.Int).Neg(k)
+		for _, a := range t.Args[1:] {
+			linAccum(a, nk, m, c)
+		}
+	case t.Op == "*" && t.Sort == SInt && !t.IsLit && len(t.Args) == 2 && t.Args[0].isInt():
+		linAccum(t.Args[1], new(big.Int).Mul(k, t.Args[0].Int), m, c)
+	case t.Op == "*" && t.Sort == SInt && !t.IsLit && len(t.Args) == 2 && t.Args[1].isInt():
+		linAccum(t.Args[0], new(big.Int).Mul(k, t.Args[1].Int), m, c)
+	default:
+		key := t.String()
+		if e, ok := m[key]; ok {
+			e.coef.Add(e.coef, k)
+		} else {
+			m[key] = &linAtom{new(big.Int).Set(k), t}
+		}
+	}
+}
+
+func linBuild(m map[string]*linAtom, c *big.Int) *Term {
+	keys := make([]string, 0, len(m))
+	for k, e := range m {
+		if e.coef.Sign() != 0 {
+			keys = append(keys, k)
+		}
+	}
+	sort.Strings(keys)
 	var out []*Term
-	for _, a := range as {
-		if a.isInt() {
-			sum.Add(sum, a.Int)
-			continue
+	one := big.NewInt(1)
+	for _, k := range keys {
+		e := m[k]
+		if e.coef.Cmp(one) == 0 {
+			out = append(out, e.t)
+		} else {
+			out = append(out, mk("*", SInt, IntLitB(e.coef), e.t))
 		}
-		if a.Op == "+" && a.Sort == SInt {
-			for _, x := range a.Args {
-				if x.isInt() {
-					sum.Add(sum, x.Int)
-				} else {
-					out = append(out, x)
-				}
-			}
-			continue
-		}
-		out = append(out, a)
 	}
 	if len(out) == 0 {
-		return IntLitB(sum)
+		return IntLitB(c)
 	}
-	if sum.Sign() != 0 {
-		out = append(out, IntLitB(sum))
+	if c.Sign() != 0 {
+		out = append(out, IntLitB(c))
 	}
 	if len(out) == 1 {
 		return out[0]
@@ -357,28 +393,58 @@ func Add(as ...*Term) *Term {
 	return mk("+", SInt, out...)
 }
 
+func Add(as ...*Term) *Term {
+	m := map[string]*linAtom{}
+	c := new(big.Int)
+	one := big.NewInt(1)
+	for _, a := range as {
+		linAccum(a, one, m, c)
+	}
+	return linBuild(m, c)
+}
+
 func Sub(a, b *Term) *Term {
-	if a.isInt() && b.isInt() {
-		return IntLitB(new(big.Int).Sub(a.Int, b.Int))
-	}
-	if b.isInt() {
-		return Add(a, IntLitB(new(big.Int).Neg(b.Int)))
-	}
-	if sameTerm(a, b) {
-		return IntLit(0)
-	}
-	// (x + c) - x
-	if a.Op == "+" && len(a.Args) == 2 && sameTerm(a.Args[0], b) {
-		return a.Args[1]
-	}
-	return mk("-", SInt, a, b)
+	m := map[string]*linAtom{}
+	c := new(big.Int)
+	linAccum(a, big.NewInt(1), m, c)
+	linAccum(b, big.NewInt(-1), m, c)
+	return linBuild(m, c)
 }
 
 func NegI(a *Term) *Term {
-	if a.isInt() {
-		return IntLitB(new(big.Int).Neg(a.Int))
+	m := map[string]*linAtom{}
+	c := new(big.Int)
+	linAccum(a, big.NewInt(-1), m, c)
+	return linBuild(m, c)
+}
+
+// linearIn splits t = coef*x + rest for the constant symbol x; ok=false if x
+// occurs non-linearly (inside another atom).
+func linearIn(t *Term, x string) (coef *big.Int, rest *Term, ok bool) {
+	m := map[string]*linAtom{}
+	c := new(big.Int)
+	linAccum(t, big.NewInt(1), m, c)
+	coef = new(big.Int)
+	nested := false
+	for k, e := range m {
+		if k == x {
+			coef.Set(e.coef)
+			delete(m, k)
+			continue
+		}
+		cs := map[string]string{}
+		e.t.Symbols(cs, map[string]bool{})
+		if _, has := cs[x]; has {
+			nested = true
+		}
 	}
-	return mk("-", SInt, a)
+	if nested && coef.Sign() != 0 {
+		return nil, nil, false
+	}
+	if nested {
+		return new(big.Int), nil, true // x only inside other atoms: not an index use here
+	}
+	return coef, linBuild(m, c), true
 }
 
 func Mul(a, b *Term) *Term {
@@ -396,6 +462,12 @@ func Mul(a, b *Term) *Term {
 	}
 	if b.isInt() { // constant first
 		a, b = b, a
+	}
+	if a.isInt() {
+		m := map[string]*linAtom{}
+		c := new(big.Int)
+		linAccum(b, a.Int, m, c)
+		return linBuild(m, c)
 	}
 	return mk("*", SInt, a, b)
 }
@@ -836,7 +908,11 @@ func rebuild(t *Term, a []*Term) *Term {
 		if len(a) == 1 {
 			return NegI(a[0])
 		}
-		return Sub(a[0], a[1])
+		r := a[0]
+		for _, x := range a[1:] {
+			r = Sub(r, x)
+		}
+		return r
 	case "*":
 		return Mul(a[0], a[1])
 	case "div":
